@@ -1,4 +1,4 @@
-"""Mutation sanity for the `youtube` part of C19 on the tree with the two fixes FX-C19-YT4 / FX-C19-YT5 applied.
+"""Mutation sanity for the `youtube` part of C19 on the tree with the two fixes FX-C19-7adbc32 / FX-C19-319af34 applied.
 
 usage: /venv/bin/python notes/c19-youtube-mutations-2.py <patched-ural-tree> [name...]
   copies <patched-ural-tree> (a checkout of ural with notes/fixes/c19-youtube-tabs-and-line-breaks.diff and
@@ -12,8 +12,8 @@ SCR = '/tmp/ytmut'
 WT = os.path.dirname(os.path.dirname(os.path.abspath(__file__)))
 Y = 'ural/youtube.py'
 MUTS = {
- 'N1-no-tab-removal (revert of FX-C19-YT4)': (Y, '    url = UNSAFE_URL_CHARS_RE.sub("", url)\n', ''),
- 'N2-playlist-keeps-percent (revert of FX-C19-YT5)': (Y, 'r"list=([^&#?/%]+)"', 'r"list=([^&#?/]+)"'),
+ 'N1-no-tab-removal (revert of FX-C19-7adbc32)': (Y, '    url = UNSAFE_URL_CHARS_RE.sub("", url)\n', ''),
+ 'N2-playlist-keeps-percent (revert of FX-C19-319af34)': (Y, 'r"list=([^&#?/%]+)"', 'r"list=([^&#?/]+)"'),
  'N3-playlist-keeps-slash': (Y, 'r"list=([^&#?/%]+)"', 'r"list=([^&#?%]+)"'),
  'N4-unsafe-chars-without-CR': (Y, 'UNSAFE_URL_CHARS_RE = re.compile(r"[\\t\\r\\n]")', 'UNSAFE_URL_CHARS_RE = re.compile(r"[\\t\\n]")'),
  'N5-tab-removal-before-infer_redirection': (Y, '    url = infer_redirection(url)\n\n    # NOTE: urlsplit drops tabs and line breaks wherever they are: the patterns\n    # below must read the url it will split\n    url = UNSAFE_URL_CHARS_RE.sub("", url)\n',
